@@ -143,7 +143,8 @@ pub fn rulegen(n: usize) -> Vec<GenRule> {
 
 /// hand-shaped words: 1-3 syllables, long and overlong, geminate across a boundary,
 /// stress, tones, clicks, americanist, single segment
-pub const WC: [&str; 25] = [
+pub const WC: [&str; 28] = [
+    "taːp", "paːt.a", "taːːpat",
     "a", "t", "pa", "ta.pa", "ˈta.pa", "pat", "ap.ta", "taː", "taːː", "tat.ta", "ˈpa.taˌka", "pa5", "pa51.ta1234",
     "ˈpaː.ta", "a.a", "tː", "ŋǃa", "ła.ta", "kat.pa.ta", "at", "i.a", "ˌtaˈpat", "pʰa.tʼi", "s", "an.ta3",
 ];
